@@ -3,6 +3,7 @@
 #include <jsoncons/utility/bigint.hpp>
 #include <jsoncons/utility/read_number.hpp>
 #include <jsoncons/utility/write_number.hpp>
+#include <jsoncons_ext/csv/csv.hpp>
 using namespace jvh;
 
 static std::string xarg(const std::string& t)
@@ -26,6 +27,31 @@ static std::string dbits(double d)
     uint64_t b;
     std::memcpy(&b, &d, 8);
     return hex64(b);
+}
+
+// fmt <g|f|s> <precision 0..127> <16 hex: IEEE bits>: the double as the JSON encoder and the CSV encoder write it under
+// float_format general / fixed / scientific with that precision (0 = "shortest that reads back"). Prints both texts.
+static std::string fmt_op(const toks_t& t)
+{
+    const std::string& f = t.at(2);
+    jsoncons::float_chars_format ff = f == "g" ? jsoncons::float_chars_format::general
+                                    : f == "f" ? jsoncons::float_chars_format::fixed
+                                    : f == "s" ? jsoncons::float_chars_format::scientific : throw bad_op{};
+    long p = std::strtol(t.at(3).c_str(), nullptr, 10);
+    if (p < 0 || p > 127) throw bad_op{};
+    uint64_t bits = std::strtoull(t.at(4).c_str(), nullptr, 16);
+    double d;
+    std::memcpy(&d, &bits, 8);
+    std::string js;
+    jsoncons::json(d).dump(js, jsoncons::json_options{}.float_format(ff).precision(static_cast<int8_t>(p)));
+    jsoncons::json table(jsoncons::json_array_arg);
+    jsoncons::json row(jsoncons::json_array_arg);
+    row.push_back(d);
+    table.push_back(row);
+    std::string cs;
+    jsoncons::csv::encode_csv(table, cs, jsoncons::csv::csv_options{}.float_format(ff).precision(static_cast<int8_t>(p)));
+    while (!cs.empty() && (cs.back() == '\n' || cs.back() == '\r')) cs.pop_back();
+    return "ok x" + hex(js) + " x" + hex(cs);
 }
 
 static jsoncons::bigint big_of(const std::string& s) { return jsoncons::bigint(s.data(), s.size()); }
@@ -72,6 +98,7 @@ std::string jvh::handle(const toks_t& t)
             }
             return "other";
         }
+        if (op == "fmt") return fmt_op(t);
         if (op == "dtoa")
         {
             uint64_t bits = std::strtoull(t.at(2).c_str(), nullptr, 16);
